@@ -113,7 +113,7 @@ pub fn answer(toks: &[&str]) -> String {
 const LENS: &[usize] = &[0, 1, 2, 22, 23, 24, 25, 31, 32, 33, 255, 256, 257];
 
 pub fn gen_string(rng: &mut Rng, dist: &mut Dist) -> String {
-  let len = match rng.below(400) {
+  let len = match rng.below(2400) {
     0 => {
       dist.hit("str_len_64k");
       *rng.pick(&[65535usize, 65536, 65537])
@@ -206,10 +206,10 @@ pub fn gen_txid(rng: &mut Rng, pool: &mut Vec<[u8; 32]>) -> [u8; 32] {
 
 /// a well-formed value (what `ord` itself builds: ids present, no packed leftovers)
 pub fn gen_wf(rng: &mut Rng, dist: &mut Dist) -> Properties {
-  let n = match rng.below(16) {
-    0..=2 => 0,
-    3 => *rng.pick(&[23usize, 24, 25]),
-    4 => {
+  let n = match rng.below(160) {
+    0..=29 => 0,
+    30..=39 => *rng.pick(&[23usize, 24, 25]),
+    40 => {
       dist.hit("gallery_256");
       *rng.pick(&[255usize, 256, 257])
     }
